@@ -152,8 +152,8 @@ def binding_demo(prop, path):
     lines = [x for e in eps for x in e]
     muts = {}
     for i, ln in enumerate(lines):
-        if '"ev":"req_cancelled"' in ln and "drop_req_cancelled" not in muts:
-            muts["drop_req_cancelled"] = lines[:i] + lines[i + 1:]
+        if '"ev":"req_start"' in ln and "drop_req_start_hook" not in muts:
+            muts["drop_req_start_hook"] = lines[:i] + lines[i + 1:]
         if '"ev":"resp_ready"' in ln and '"status":200' in ln and "corrupt_status" not in muts:
             muts["corrupt_status"] = lines[:i] + [ln.replace('"status":200', '"status":201')] + lines[i + 1:]
         if '"ev":"graceful_done"' in ln and "graceful_done_early" not in muts:
